@@ -136,6 +136,9 @@ def code_for_string_token(name, value, location):
     assert name is not None
     assert value is not None
     assert len(value) >= 2
+    if (value[0] in "uU") and (len(value) >= 3):
+        # The documented notation for unicode text, for example u"\u00dc", means the same as without the "u".
+        value = value[1:]
     left_quote = value[0]
     right_quote = value[-1]
     if (left_quote not in "\"'") or (right_quote not in "\"'"):
